@@ -769,3 +769,16 @@ M("C14", "emu-sv own-times membership by bisection on one neighbour", "kill",
 M("C14", "twin: emu-sv own-times membership written as an explicit scan", "twin",
   [(SVI, "        is_observable_eval_time = (\n            times is not None\n            and self._config.is_time_in_evaluation_times(t, times, tol=tolerance)\n        )\n",
     "        is_observable_eval_time = times is not None and any(\n            abs(t - x) <= tolerance for x in times\n        )\n")])
+# ---- make_H binding, diagonal builders
+M("C04", "MPO rebuilt after the SLM switch with the callee's default interaction kind", "kill",
+  [(HM, "    hamiltonian_type: HamiltonianType,\n    dim: int = 2,", "    hamiltonian_type: HamiltonianType = HamiltonianType.Rydberg,\n    dim: int = 2,"),
+   (IMPL, "                interaction_matrix=self.current_interaction_matrix,\n                hamiltonian_type=self.hamiltonian_type,\n                dim=self.dim,", "                interaction_matrix=self.current_interaction_matrix,\n                dim=self.dim,")], "HAM-mps")
+M("C04", "MPO rebuilt after the SLM switch for two levels", "kill",
+  [(IMPL, "                hamiltonian_type=self.hamiltonian_type,\n                dim=self.dim,\n                num_gpus_to_use=self.resolved_num_gpus,", "                hamiltonian_type=self.hamiltonian_type,\n                num_gpus_to_use=self.resolved_num_gpus,")], "HAM-mps")
+LOF = "emu_sv/lindblad_operator.py"
+M("C16", "Lindbladian diagonal stops a row at the first zero coefficient", "kill",
+  [(LOF, "                i_fixed = i_fixed.view(2**i, 2 ** (j - i - 1), 2, -1)\n                # replacing i_j_fixed by i_fixed breaks the code :)", "                if self.interaction_matrix[i, j] == 0.0:\n                    break\n                i_fixed = i_fixed.view(2**i, 2 ** (j - i - 1), 2, -1)\n                # replacing i_j_fixed by i_fixed breaks the code :)")], "HAM-form")
+M("C16", "Lindbladian diagonal pairs start at i + 2", "kill",
+  [(LOF, "            for j in range(i + 1, self.nqubits):\n                i_fixed = i_fixed.view(2**i, 2 ** (j - i - 1), 2, -1)\n                # replacing", "            for j in range(i + 2, self.nqubits):\n                i_fixed = i_fixed.view(2**i, 2 ** (j - i - 1), 2, -1)\n                # replacing")], "HAM-form")
+M("C06", "Lindbladian diagonal second axis off by one", "kill",
+  [(LOF, "                i_fixed = i_fixed.view(2**i, 2 ** (j - i - 1), 2, -1)\n                # replacing", "                i_fixed = i_fixed.view(2**i, 2 ** (j - i), 2, -1)\n                # replacing")], "HAM-form")
